@@ -95,3 +95,47 @@ package discov
 //@   ensures [monitors-the-key-with-its-container] calls(Monitor) == 1 && arg(Monitor, 1) == endpoints && arg(Monitor, 2) == key && calls(newContainer) == 1 && unbox(arg(Monitor, 3), ptr(container)) == ret(newContainer)
 //@   ensures [monitor-error] ret(Monitor) != nil ==> result0 == nil && result1 == ret(Monitor)
 //@   ensures [built] ret(Monitor) == nil ==> result1 == nil && result0 != nil && result0.items == ret(newContainer)
+
+// ---------------- publisher (C15: the histories the subscribers see come from here) ----------------
+// register: one lease of TimeToLive seconds is granted and the value is put under the key derived from the
+// configured id (or, without one, from the lease) - bound to that very lease, so the key expires with it.
+//@ func (*Publisher).register
+//@   prop C15
+//@   opaque makeEtcdKey
+//@   requires p != nil
+//@   ensures [lease-error] ret(Grant, 1) != nil ==> result0 == 0 && result1 == ret(Grant, 1) && calls(Put) == 0
+//@   ensures [granted-for-the-ttl] calls(Grant) == 1 && arg(Grant, 1) == TimeToLive
+//@   ensures [key-from-id-else-lease] ret(Grant, 1) == nil ==> calls(makeEtcdKey) == 1 && arg(makeEtcdKey, 0) == p.key && arg(makeEtcdKey, 1) == ite(p.id > 0, p.id, ret(Grant, 0).ID) && p.fullKey == ret(makeEtcdKey)
+//@   ensures [value-put-under-that-key-with-the-lease] ret(Grant, 1) == nil ==> calls(Put) == 1 && arg(Put, 1) == p.fullKey && arg(Put, 2) == p.value && calls(clientv3.WithLease) == 1 && arg(clientv3.WithLease, 0) == ret(Grant, 0).ID && result0 == ret(Grant, 0).ID && result1 == ret(Put, 1)
+// revoke: the publisher's current lease is revoked (the key disappears with it); a failure is only logged.
+//@ func (*Publisher).revoke
+//@   prop C15
+//@   opaque Error
+//@   requires p != nil
+//@   ensures [own-lease-revoked] calls(Revoke) == 1 && arg(Revoke, 1) == p.lease
+// KeepAlive: connect, register, then renew in the background; any failure before that is returned.
+//@ func (*Publisher).KeepAlive
+//@   prop C15
+//@   opaque GetRegistry, GetConn, register, AddWrapUpListener, keepAliveAsync
+//@   requires p != nil
+//@   ensures [no-connection] ret(GetConn, 1) != nil ==> result == ret(GetConn, 1) && calls(register) == 0
+//@   ensures [registration-failure] calls(register) == 1 && ret(register, 1) != nil ==> result == ret(register, 1) && calls(keepAliveAsync) == 0
+//@   ensures [registered-on-that-connection-then-renewed] calls(register) == 1 && ret(register, 1) == nil ==> arg(register, 1) == ret(GetConn, 0) && p.lease == ret(register, 0) && calls(p.keepAliveAsync) == 1 && arg(p.keepAliveAsync, 1) == ret(GetConn, 0) && result == ret(keepAliveAsync)
+// keepAliveAsync: the renewal stream is for the publisher's lease; the renewer runs in the background only when the
+// stream could be opened.
+//@ func (*Publisher).keepAliveAsync
+//@   prop C15
+//@   opaque GoSafe
+//@   requires p != nil
+//@   ensures [stream-for-own-lease] calls(KeepAlive) == 1 && arg(KeepAlive, 1) == p.lease
+//@   ensures [stream-error] ret(KeepAlive, 1) != nil ==> result == ret(KeepAlive, 1) && calls(GoSafe) == 0
+//@   ensures [renewer-started] ret(KeepAlive, 1) == nil ==> result == nil && calls(threading.GoSafe) == 1
+// the renewer: a closed renewal stream (lease lost) re-registers from scratch after revoking the dead lease; a pause
+// revokes and waits for resume (re-register) or quit; quit revokes and ends.
+//@ func (*Publisher).keepAliveAsync$1
+//@   prop C15
+//@   opaque revoke, KeepAlive, Errorf, Infof, Done
+//@   loop 1 iteration-ensures [live-stream-just-continues] calls(revoke) == 0 && calls(KeepAlive) == 0 && calls(on("recv", ch)) == 1 && ret(on("recv", ch), 1)
+//@   ensures [always-revokes-before-leaving] tail(calls(p.revoke, client)) == 1
+//@   ensures [lost-lease-re-registers] tail(calls(on("recv", ch))) == 1 ==> tail(calls(p.KeepAlive) == 1 && before(revoke, KeepAlive))
+//@   ensures [quit-only-revokes] tail(calls(on("recv", ch))) == 0 && tail(calls(on("recv", p.pauseChan))) == 0 ==> tail(calls(KeepAlive)) == 0
